@@ -335,6 +335,37 @@ def reuse_with_delays(ctx, rng, n):
         ctx.nontriv(("reuse", dtype, len(dprod)))
 
 
+def prebuilt_interface(ctx, rng):
+    """the entry point called with the model and with an interface built beforehand gives the same seeded outcome in the modes
+    that depend on the time step (a volume in play; rules of frequency dt; ODE rules)."""
+    from bioscrape.types import Model
+    from bioscrape.simulator import ModelCSimInterface, SafeModelCSimInterface, py_simulate_model
+    from bioscrape.random import py_seed_random
+    spec = dict(species=["A", "B", "N", "W"], parameters={"k": 2.0, "d": 0.5, "c": 0.25},
+                reactions=[([], ["A"], "massaction", {"k": "k"}), (["A"], ["B"], "massaction", {"k": "d"})],
+                rules=[("assignment", {"equation": "N = N + 1"}, "dt"), ("ode", {"equation": "c", "target": "W"})],
+                initial_condition_dict={"A": 5, "B": 0, "N": 0, "W": 0})
+    for T in (np.linspace(0, 4.0, 9), np.linspace(0, 3.0, 31)):
+        for kw in (dict(stochastic=True), dict(stochastic=True, volume=2.0), dict(stochastic=True, delay=True, volume=True),
+                   dict(stochastic=False), dict(stochastic=True, safe=True, volume=1.5)):
+            seed = rng.randint(1, 10**6)
+            case = {"scenario": "Model= versus Interface= built beforehand", "options": {k_: (v_ if not isinstance(v_, float) else v_) for k_, v_ in kw.items()}, "grid_step": float(T[1] - T[0]), "seed": seed}
+            ctx.begin_case(case)
+            py_seed_random(seed)
+            a = np.array(py_simulate_model(T.copy(), Model=Model(**spec), return_dataframe=False, **kw).py_get_result())
+            M = Model(**spec)
+            I = (SafeModelCSimInterface if kw.get("safe") else ModelCSimInterface)(M)
+            py_seed_random(seed)
+            b = np.array(py_simulate_model(T.copy(), Interface=I, return_dataframe=False, **kw).py_get_result())
+            ctx.evaluated()
+            same = np.allclose(a, b, rtol=1e-6, atol=1e-9) if not kw["stochastic"] else np.array_equal(a, b)
+            if not same:
+                ctx.violation("history-dependence/prebuilt-interface", "py_simulate_model(%s) on a grid of step %g: the run through an interface built beforehand differs from the run "
+                              "given the model (last rows %s vs %s)" % (kw, T[1] - T[0], b[-1].tolist(), a[-1].tolist()), case)
+                return
+            ctx.count("prebuilt_interface_cases")
+
+
 def sampler_history(ctx, rng):
     """the outcome of a seeded delay simulation does not depend on which distributions were sampled earlier in the process:
     a gamma-delay model simulated right after another gamma-delay model with the same shape and another scale, and again
@@ -382,6 +413,7 @@ def run(ctx):
     stale_interface(ctx, rng)
     reuse_with_delays(ctx, rng, 12 if ctx.quick() else 200)
     sampler_history(ctx, rng)
+    prebuilt_interface(ctx, rng)
     # lineage models are models too: built one rule / event at a time (with initialisations and runs in between) they behave
     # like the same definition built at once (the scenario is C19's; its containers are the LineageModel program above)
     from props import C19
